@@ -8,9 +8,10 @@ open StyluaModel StyluaModel.ParenRule StyluaModel.Prec Expr
 /-- every parenthesis drop that context `ctx` permits is harmless at position `p` -/
 def dropOK (ctx : Ctx) (p : Pos) : Bool :=
   match p with
+  | .top => true
   | .binL .caret => decide (ctx = .binLhsExp) || keepParens ctx
   | .assertOperand => keepParens ctx
-  | _ => true
+  | _ => decide (ctx ≠ .std)   -- an operand is never formatted in the Standard context
 
 theorem truncate_truncate (s : Sem) : truncate (truncate s) = truncate s := by
   cases s <;> rfl
@@ -34,6 +35,27 @@ theorem checkExcess_not_rightOpen (e : Expr) (ctx : Ctx) (h : checkExcess e ctx 
   | assert e ih => rfl
   | ifx n => simp [checkExcess] at h
 
+/-- L3': outside the Standard context it does not end in a type either -/
+theorem checkExcess_not_endsWithType (e : Expr) (ctx : Ctx) (h : checkExcess e ctx = true)
+    (hs : ctx ≠ .std) (hk : keepParens ctx = false) : endsWithType e = false := by
+  induction e with
+  | atom n => rfl
+  | call n => simp [checkExcess] at h
+  | varargs => simp [checkExcess] at h
+  | paren e ih => rfl
+  | un op e ih =>
+    simp only [checkExcess] at h
+    split at h
+    · simp at h
+    · split at h
+      · simp at h
+      · simpa [endsWithType] using ih h
+  | bin op l r => simp [checkExcess] at h
+  | assert e ih =>
+    simp only [checkExcess] at h
+    cases ctx <;> simp_all [keepParens]
+  | ifx n => simp [checkExcess] at h
+
 /-- L2: … and dropping them does not un-truncate anything -/
 theorem checkExcess_sem (e : Expr) (ctx : Ctx) (h : checkExcess e ctx = true) :
     truncate (sem e) = sem e := by
@@ -48,13 +70,17 @@ theorem checkExcess_sem (e : Expr) (ctx : Ctx) (h : checkExcess e ctx = true) :
   | ifx n => simp [checkExcess] at h
 
 theorem prec_le_of_ne_caret (op : BinOp) (h : op ≠ .caret) : op.prec ≤ unPrec := by
-  cases op <;> simp [BinOp.prec, unPrec] at * 
+  cases op <;> simp [BinOp.prec, unPrec] at *
 
 theorem okAt_paren (p : Pos) (e : Expr) : okAt p (paren e) = true := by
-  cases p <;> simp [okAt, rightOpen]
+  cases p <;> simp [okAt, rightOpen, endsWithType]
 
 theorem okAt_atom (p : Pos) (n : Nat) : okAt p (atom n) = true := by
-  cases p <;> simp [okAt, rightOpen]
+  cases p <;> simp [okAt, rightOpen, endsWithType]
+
+theorem dropOK_binL_ne_std (ctx : Ctx) (o : BinOp) (hc : o ≠ .caret) (hd : dropOK ctx (.binL o) = true) :
+    ctx ≠ .std := by
+  cases o <;> simp_all [dropOK]
 
 /-- L1: what a permitted drop exposes may stand bare at that position -/
 theorem checkExcess_okAt (e : Expr) (ctx : Ctx) (p : Pos)
@@ -69,7 +95,6 @@ theorem checkExcess_okAt (e : Expr) (ctx : Ctx) (p : Pos)
   | ifx n => simp [checkExcess] at h
   | un op e =>
     have hro := checkExcess_not_rightOpen (un op e) ctx h
-    simp only [checkExcess] at h
     cases p with
     | top => rfl
     | unOperand o => rfl
@@ -79,10 +104,10 @@ theorem checkExcess_okAt (e : Expr) (ctx : Ctx) (p : Pos)
       by_cases hc : o = .caret
       · subst hc
         simp [dropOK, hk] at hd
-        simp [hd] at h
-      · simp [okAt, hro, prec_le_of_ne_caret o hc]
+        simp [checkExcess, hd] at h
+      · have het := checkExcess_not_endsWithType (un op e) ctx h (dropOK_binL_ne_std ctx o hc hd) hk
+        simp [okAt, hro, het, prec_le_of_ne_caret o hc]
   | assert e =>
-    simp only [checkExcess] at h
     cases p with
     | top => rfl
     | unOperand o => rfl
@@ -92,8 +117,10 @@ theorem checkExcess_okAt (e : Expr) (ctx : Ctx) (p : Pos)
       by_cases hc : o = .caret
       · subst hc
         simp [dropOK, hk] at hd
-        simp [hd] at h
-      · simp [okAt, rightOpen]
+        simp [checkExcess, hd] at h
+      · have hs := dropOK_binL_ne_std ctx o hc hd
+        simp only [checkExcess] at h
+        cases ctx <;> simp_all [keepParens]
 
 /-- the `- -` guard of the unary arms -/
 def guardS (op : UnOp) (e' : Expr) : Expr :=
@@ -118,34 +145,48 @@ theorem sem_guardS (op : UnOp) (e' : Expr) : sem (guardS op e') = sem e' := by
     | _ => simp [needsMinusGuard] at hg
   · rfl
 
+/-- `r` is not more open at its right edge than `e` -/
+def EdgeLe (r e : Expr) : Prop :=
+  (rightOpen r = true → rightOpen e = true) ∧ (endsWithType r = true → endsWithType e = true)
+
+theorem EdgeLe.refl (e : Expr) : EdgeLe e e := ⟨id, id⟩
+theorem edgeLe_paren (r e : Expr) : EdgeLe (paren r) e := ⟨by simp [rightOpen], by simp [endsWithType]⟩
+theorem edgeLe_un (op : UnOp) {r e : Expr} (h : EdgeLe r e) : EdgeLe (un op r) (un op e) :=
+  ⟨by simpa [rightOpen] using h.1, by simpa [endsWithType] using h.2⟩
+theorem edgeLe_bin (op : BinOp) (l l' : Expr) {r e : Expr} (h : EdgeLe r e) : EdgeLe (bin op l' r) (bin op l e) :=
+  ⟨by simpa [rightOpen] using h.1, by simpa [endsWithType] using h.2⟩
+theorem EdgeLe.trans {a b c : Expr} (h1 : EdgeLe a b) (h2 : EdgeLe b c) : EdgeLe a c :=
+  ⟨fun h => h2.1 (h1.1 h), fun h => h2.2 (h1.2 h)⟩
+
 theorem guardS_ok (op : UnOp) (e' : Expr) (hf : faithful e' = true) (hok : okAt (.unOperand op) e' = true) :
     okAt (.unOperand op) (guardS op e') = true ∧ minusClash op (guardS op e') = false ∧
-    faithful (guardS op e') = true ∧ (rightOpen (guardS op e') = true → rightOpen e' = true) := by
+    faithful (guardS op e') = true ∧ EdgeLe (guardS op e') e' := by
   unfold guardS
   split
-  · refine ⟨okAt_paren _ _, ?_, by simpa [faithful] using hf, by simp [rightOpen]⟩
+  · refine ⟨okAt_paren _ _, ?_, by simpa [faithful] using hf, edgeLe_paren _ _⟩
     simp [minusClash, Prec.isUnMinus]
   · rename_i h
-    refine ⟨hok, ?_, hf, id⟩
+    refine ⟨hok, ?_, hf, EdgeLe.refl _⟩
     cases hc : minusClash op e'
     · rfl
     · simp [minusClash] at hc
       exact absurd ⟨hc.1, needsMinusGuard_of_isUnMinus e' hc.2⟩ h
 
-
+/-- the invariant carried through both formatting paths. The edge clause is only claimed at
+operand positions: at a delimited position nothing follows the expression. -/
 def Good (p : Pos) (e r : Expr) : Prop :=
-  faithful r = true ∧ okAt p r = true ∧ sem r = sem e ∧ (rightOpen r = true → rightOpen e = true)
+  faithful r = true ∧ okAt p r = true ∧ sem r = sem e ∧ (p ≠ .top → EdgeLe r e)
 
 theorem dropOK_top (ctx : Ctx) : dropOK ctx .top = true := rfl
-theorem dropOK_unOperand (ctx : Ctx) (o : UnOp) : dropOK ctx (.unOperand o) = true := rfl
-theorem dropOK_binR (ctx : Ctx) (o : BinOp) : dropOK ctx (.binR o) = true := rfl
+theorem dropOK_unOrBin_un (o : UnOp) : dropOK .unOrBin (.unOperand o) = true := by simp [dropOK]
+theorem dropOK_unOrBin_binR (o : BinOp) : dropOK .unOrBin (.binR o) = true := by simp [dropOK]
 theorem dropOK_lhsCtx (op : BinOp) : dropOK (lhsCtx op) (.binL op) = true := by
   cases op <;> simp [dropOK, lhsCtx]
 theorem dropOK_tassert : dropOK .tassert .assertOperand = true := rfl
 
-/-- okAt of a unary node depends only on the position and on right-openness -/
+/-- okAt of a unary node depends only on the position and on the right edge -/
 theorem okAt_un_mono (p : Pos) (op : UnOp) (e r : Expr)
-    (h : okAt p (un op e) = true) (hro : rightOpen r = true → rightOpen e = true) :
+    (h : okAt p (un op e) = true) (hro : EdgeLe r e) :
     okAt p (un op r) = true := by
   cases p with
   | top => rfl
@@ -153,14 +194,19 @@ theorem okAt_un_mono (p : Pos) (op : UnOp) (e r : Expr)
   | binR o => rfl
   | assertOperand => simp [okAt] at h
   | binL o =>
-    simp [okAt, rightOpen] at h ⊢
-    refine ⟨?_, h.2⟩
-    cases hr : rightOpen r
-    · rfl
-    · rw [hro hr] at h; simp at h
+    simp only [okAt, rightOpen, endsWithType, Bool.and_eq_true, Bool.not_eq_eq_eq_not, Bool.not_true,
+      Bool.and_eq_false_imp] at h ⊢
+    refine ⟨⟨?_, ?_⟩, h.2⟩
+    · cases hr : rightOpen r
+      · rfl
+      · rw [hro.1 hr] at h; simp at h
+    · intro ho
+      cases hr : endsWithType r
+      · rfl
+      · have := h.1.2 ho; rw [hro.2 hr] at this; cases this
 
 theorem okAt_bin_mono (p : Pos) (op : BinOp) (l r l' r' : Expr)
-    (h : okAt p (bin op l r) = true) (hro : rightOpen r' = true → rightOpen r = true) :
+    (h : okAt p (bin op l r) = true) (hro : EdgeLe r' r) :
     okAt p (bin op l' r') = true := by
   cases p with
   | top => rfl
@@ -168,14 +214,19 @@ theorem okAt_bin_mono (p : Pos) (op : BinOp) (l r l' r' : Expr)
   | binR o => simpa [okAt] using h
   | assertOperand => simp [okAt] at h
   | binL o =>
-    simp only [okAt, rightOpen, Bool.and_eq_true, Bool.not_eq_eq_eq_not, Bool.not_true] at h ⊢
-    refine ⟨?_, h.2⟩
-    cases hr : rightOpen r'
-    · rfl
-    · rw [hro hr] at h; simp at h
+    simp only [okAt, rightOpen, endsWithType, Bool.and_eq_true, Bool.not_eq_eq_eq_not, Bool.not_true,
+      Bool.and_eq_false_imp] at h ⊢
+    refine ⟨⟨?_, ?_⟩, h.2⟩
+    · cases hr : rightOpen r'
+      · rfl
+      · rw [hro.1 hr] at h; simp at h
+    · intro ho
+      cases hr : endsWithType r'
+      · rfl
+      · have := h.1.2 ho; rw [hro.2 hr] at this; cases this
 
 theorem okAt_assert (p : Pos) (e r : Expr) (h : okAt p (assert e) = true) : okAt p (assert r) = true := by
-  cases p <;> simp_all [okAt, rightOpen]
+  cases p <;> simp_all [okAt, rightOpen, endsWithType]
 
 theorem fmtS_paren (ctx : Ctx) (e : Expr) :
     fmtS repaired ctx (paren e) =
@@ -183,85 +234,50 @@ theorem fmtS_paren (ctx : Ctx) (e : Expr) :
   have h : repaired.ctxThroughDrop = true := rfl
   simp only [fmtS, h, if_true]
 
-theorem fmtS_good (e : Expr) : ∀ (ctx : Ctx) (p : Pos), dropOK ctx p = true → faithful e = true →
-    okAt p e = true → Good p e (fmtS repaired ctx e) := by
-  induction e with
-  | atom n => intro ctx p _ hf hok; exact ⟨hf, hok, rfl, id⟩
-  | call n => intro ctx p _ hf hok; exact ⟨hf, hok, rfl, id⟩
-  | varargs => intro ctx p _ hf hok; exact ⟨hf, hok, rfl, id⟩
-  | ifx n => intro ctx p _ hf hok; exact ⟨hf, hok, rfl, id⟩
-  | paren e ih =>
-    intro ctx p hd hf hok
-    have hfe : faithful e = true := by simpa [faithful] using hf
-    rw [fmtS_paren]
-    split
-    · rename_i hdrop
-      obtain ⟨hce, hk⟩ := hdrop
-      have hk' : keepParens ctx = false := by simpa using hk
-      have hoke := checkExcess_okAt e ctx p hce hk' hd
-      obtain ⟨g1, g2, g3, g4⟩ := ih ctx p hd hfe hoke
-      refine ⟨g1, g2, ?_, ?_⟩
-      · rw [g3]; simp [sem, checkExcess_sem e ctx hce]
-      · intro hr; have := g4 hr; rw [checkExcess_not_rightOpen e ctx hce] at this; cases this
-    · obtain ⟨g1, g2, g3, g4⟩ := ih .std .top rfl hfe rfl
-      refine ⟨by simpa [faithful] using g1, okAt_paren _ _, by simp [sem, g3], by simp [rightOpen]⟩
-  | un op e ih =>
-    intro ctx p hd hf hok
-    simp only [faithful, Bool.and_eq_true, Bool.not_eq_eq_eq_not, Bool.not_true] at hf
-    obtain ⟨⟨ho, _⟩, hfe⟩ := hf
-    obtain ⟨g1, g2, g3, g4⟩ := ih .unOrBin (.unOperand op) rfl hfe ho
-    have hg := guardS_ok op (fmtS repaired .unOrBin e) g1 g2
-    have : fmtS repaired ctx (un op e) = un op (guardS op (fmtS repaired .unOrBin e)) := by
-      simp only [fmtS, guardS]; split <;> rfl
-    rw [this]
-    obtain ⟨k1, k2, k3, k4⟩ := hg
-    refine ⟨by simp [faithful, k1, k2, k3], ?_, by simp [sem, sem_guardS, g3], ?_⟩
-    · exact okAt_un_mono p op e _ hok (fun h => g4 (k4 h))
-    · simp only [rightOpen]; exact fun h => g4 (k4 h)
-  | bin op l r ihl ihr =>
-    intro ctx p hd hf hok
-    simp only [faithful, Bool.and_eq_true] at hf
-    obtain ⟨⟨⟨hol, hor⟩, hfl⟩, hfr⟩ := hf
-    obtain ⟨l1, l2, l3, l4⟩ := ihl (lhsCtx op) (.binL op) (dropOK_lhsCtx op) hfl hol
-    obtain ⟨r1, r2, r3, r4⟩ := ihr .unOrBin (.binR op) rfl hfr hor
-    simp only [fmtS]
-    refine ⟨by simp [faithful, l1, l2, r1, r2], ?_, by simp [sem, l3, r3], by simpa [rightOpen] using r4⟩
-    exact okAt_bin_mono p op l r _ _ hok r4
-  | assert e ih =>
-    intro ctx p hd hf hok
-    simp only [faithful, Bool.and_eq_true] at hf
-    obtain ⟨ho, hfe⟩ := hf
-    obtain ⟨g1, g2, g3, g4⟩ := ih .tassert .assertOperand rfl hfe ho
-    simp only [fmtS]
-    exact ⟨by simp [faithful, g1, g2], okAt_assert p e _ hok, by simp [sem, g3], by simp [rightOpen]⟩
-
 /-! ### constructor-level lemmas shared by the single-line and the hanging path -/
 
 theorem good_atomlike (p : Pos) (e : Expr) (hf : faithful e = true) (hok : okAt p e = true) : Good p e e :=
-  ⟨hf, hok, rfl, id⟩
+  ⟨hf, hok, rfl, fun _ => EdgeLe.refl e⟩
 
 theorem good_bin (p : Pos) (op : BinOp) (l r l' r' : Expr) (hok : okAt p (bin op l r) = true)
     (gl : Good (.binL op) l l') (gr : Good (.binR op) r r') : Good p (bin op l r) (bin op l' r') := by
-  obtain ⟨l1, l2, l3, l4⟩ := gl
+  obtain ⟨l1, l2, l3, _⟩ := gl
   obtain ⟨r1, r2, r3, r4⟩ := gr
-  exact ⟨by simp [faithful, l1, l2, r1, r2], okAt_bin_mono p op l r _ _ hok r4, by simp [sem, l3, r3],
-    by simpa [rightOpen] using r4⟩
+  have hr := r4 (by simp)
+  exact ⟨by simp [faithful, l1, l2, r1, r2], okAt_bin_mono p op l r _ _ hok hr, by simp [sem, l3, r3],
+    fun _ => edgeLe_bin op l l' hr⟩
 
 theorem good_paren_keep (p : Pos) (e r : Expr) (g : Good .top e r) : Good p (paren e) (paren r) := by
   obtain ⟨g1, g2, g3, g4⟩ := g
-  exact ⟨by simpa [faithful] using g1, okAt_paren _ _, by simp [sem, g3], by simp [rightOpen]⟩
+  exact ⟨by simpa [faithful] using g1, okAt_paren _ _, by simp [sem, g3], fun _ => edgeLe_paren _ _⟩
 
 theorem good_paren_drop (p : Pos) (ctx : Ctx) (e r : Expr) (hce : checkExcess e ctx = true)
+    (hk : keepParens ctx = false) (hd : dropOK ctx p = true)
     (g : Good p e r) : Good p (paren e) r := by
   obtain ⟨g1, g2, g3, g4⟩ := g
   refine ⟨g1, g2, ?_, ?_⟩
   · rw [g3]; simp [sem, checkExcess_sem e ctx hce]
-  · intro hr; have := g4 hr; rw [checkExcess_not_rightOpen e ctx hce] at this; cases this
+  · intro hp
+    have h4 := g4 hp
+    have hs : ctx ≠ .std := by
+      cases p with
+      | top => exact absurd rfl hp
+      | binL o =>
+        by_cases hc : o = .caret
+        · subst hc; simp [dropOK, hk] at hd; simp [hd]
+        · exact dropOK_binL_ne_std ctx o hc hd
+      | assertOperand => simp [dropOK, hk] at hd
+      | unOperand o => simpa [dropOK] using hd
+      | binR o => simpa [dropOK] using hd
+    constructor
+    · intro hr; have := h4.1 hr; rw [checkExcess_not_rightOpen e ctx hce] at this; cases this
+    · intro hr; have := h4.2 hr; rw [checkExcess_not_endsWithType e ctx hce hs hk] at this; cases this
 
 theorem good_assert (p : Pos) (e r : Expr) (hok : okAt p (assert e) = true)
     (g : Good .assertOperand e r) : Good p (assert e) (assert r) := by
   obtain ⟨g1, g2, g3, g4⟩ := g
-  exact ⟨by simp [faithful, g1, g2], okAt_assert p e _ hok, by simp [sem, g3], by simp [rightOpen]⟩
+  exact ⟨by simp [faithful, g1, g2], okAt_assert p e _ hok, by simp [sem, g3],
+    fun _ => ⟨by simp [rightOpen], by simp [endsWithType]⟩⟩
 
 theorem isUnMinus_eq (e : Expr) : ParenRule.isUnMinus e = Prec.isUnMinus e := by
   cases e with
@@ -273,11 +289,13 @@ theorem good_un (p : Pos) (op : UnOp) (e r : Expr) (w : Bool) (hok : okAt p (un 
     (hw : minusClash op r = true → w = true) (hws : w = true → truncate (sem r) = sem r)
     (g : Good (.unOperand op) e r) : Good p (un op e) (un op (if w then paren r else r)) := by
   obtain ⟨g1, g2, g3, g4⟩ := g
+  have hedge := g4 (by simp)
   cases w with
   | true =>
     simp only [if_true]
-    refine ⟨by simp [faithful, okAt_paren, minusClash, Prec.isUnMinus, g1], ?_, ?_, by simp [rightOpen]⟩
-    · exact okAt_un_mono p op e _ hok (by simp [rightOpen])
+    have he : EdgeLe (paren r) e := edgeLe_paren _ _
+    refine ⟨by simp [faithful, okAt_paren, minusClash, Prec.isUnMinus, g1], ?_, ?_, fun _ => edgeLe_un op he⟩
+    · exact okAt_un_mono p op e _ hok he
     · have := hws rfl
       rw [g3] at this
       simp [sem, this, g3]
@@ -286,8 +304,69 @@ theorem good_un (p : Pos) (op : UnOp) (e r : Expr) (w : Bool) (hok : okAt p (un 
       cases h : minusClash op r
       · rfl
       · exact absurd (hw h) (by simp)
-    refine ⟨by simp [faithful, g1, g2, hc], okAt_un_mono p op e _ hok g4, by simp [sem, g3],
-      by simpa [rightOpen] using g4⟩
+    refine ⟨by simp [faithful, g1, g2, hc], okAt_un_mono p op e _ hok hedge, by simp [sem, g3],
+      fun _ => edgeLe_un op hedge⟩
+
+theorem truncate_sem_of_needsGuard (r : Expr) (h : needsMinusGuard r = true) : truncate (sem r) = sem r := by
+  cases r with
+  | un op x => rfl
+  | paren y =>
+    cases y with
+    | un o x => simp [sem, truncate]
+    | _ => simp [needsMinusGuard] at h
+  | _ => simp [needsMinusGuard] at h
+
+theorem fmtS_un_eq (ctx : Ctx) (op : UnOp) (e : Expr) :
+    fmtS repaired ctx (un op e) =
+      un op (if (decide (op = .minus) && needsMinusGuard (fmtS repaired .unOrBin e))
+             then paren (fmtS repaired .unOrBin e) else fmtS repaired .unOrBin e) := by
+  simp only [fmtS]
+  by_cases h1 : op = .minus <;> cases h2 : needsMinusGuard (fmtS repaired .unOrBin e) <;> simp [h1]
+
+theorem fmtS_good (e : Expr) : ∀ (ctx : Ctx) (p : Pos), dropOK ctx p = true → faithful e = true →
+    okAt p e = true → Good p e (fmtS repaired ctx e) := by
+  induction e with
+  | atom n => intro ctx p _ hf hok; exact good_atomlike p _ hf hok
+  | call n => intro ctx p _ hf hok; exact good_atomlike p _ hf hok
+  | varargs => intro ctx p _ hf hok; exact good_atomlike p _ hf hok
+  | ifx n => intro ctx p _ hf hok; exact good_atomlike p _ hf hok
+  | paren e ih =>
+    intro ctx p hd hf hok
+    have hfe : faithful e = true := by simpa [faithful] using hf
+    rw [fmtS_paren]
+    split
+    · rename_i hdrop
+      obtain ⟨hce, hk⟩ := hdrop
+      have hk' : keepParens ctx = false := by simpa using hk
+      exact good_paren_drop p ctx e _ hce hk' hd (ih ctx p hd hfe (checkExcess_okAt e ctx p hce hk' hd))
+    · exact good_paren_keep p e _ (ih .std .top rfl hfe rfl)
+  | un op e ih =>
+    intro ctx p hd hf hok
+    have hf' := hf
+    simp only [faithful, Bool.and_eq_true, Bool.not_eq_eq_eq_not, Bool.not_true] at hf'
+    obtain ⟨⟨ho, _⟩, hfe⟩ := hf'
+    rw [fmtS_un_eq]
+    refine good_un p op e _ _ hok ?_ ?_ (ih .unOrBin (.unOperand op) (dropOK_unOrBin_un op) hfe ho)
+    · intro hc
+      simp only [minusClash, Bool.and_eq_true, beq_iff_eq] at hc
+      simp [hc.1, needsMinusGuard_of_isUnMinus _ hc.2]
+    · intro hw
+      simp only [Bool.and_eq_true] at hw
+      exact truncate_sem_of_needsGuard _ hw.2
+  | bin op l r ihl ihr =>
+    intro ctx p hd hf hok
+    have hf' := hf
+    simp only [faithful, Bool.and_eq_true] at hf'
+    obtain ⟨⟨⟨hol, hor⟩, hfl⟩, hfr⟩ := hf'
+    simp only [fmtS]
+    exact good_bin p op l r _ _ hok (ihl (lhsCtx op) (.binL op) (dropOK_lhsCtx op) hfl hol)
+      (ihr .unOrBin (.binR op) (dropOK_unOrBin_binR op) hfr hor)
+  | assert e ih =>
+    intro ctx p hd hf hok
+    have hf' := hf
+    simp only [faithful, Bool.and_eq_true] at hf'
+    simp only [fmtS]
+    exact good_assert p e _ hok (ih .tassert .assertOperand rfl hf'.2 hf'.1)
 
 theorem truncate_sem_of_isUnMinus (r : Expr) (h : ParenRule.isUnMinus r = true) : truncate (sem r) = sem r := by
   cases r with
@@ -314,25 +393,31 @@ theorem hangBin_assert_eq (o : Oracle) (ctx : Ctx) (e : Expr) :
 
 def hctx (op : BinOp) (ctx : Ctx) : Ctx := if op = .caret then .binLhsExp else ctx
 
-theorem dropOK_hctx (op : BinOp) (ctx : Ctx) : dropOK (hctx op ctx) (.binL op) = true := by
-  cases op <;> simp [dropOK, hctx]
+theorem dropOK_hctx (op : BinOp) (ctx : Ctx) (hs : ctx ≠ .std) : dropOK (hctx op ctx) (.binL op) = true := by
+  cases op <;> simp [dropOK, hctx, hs]
+
+theorem hctx_ne_std (op : BinOp) (ctx : Ctx) (hs : ctx ≠ .std) : hctx op ctx ≠ .std := by
+  unfold hctx; split <;> simp [hs]
 
 theorem fmtH_bin_eq (o : Oracle) (ctx : Ctx) (op : BinOp) (l r : Expr) :
     fmtH repaired o ctx (bin op l r) =
-      bin op (hangBin repaired o.l (hctx op .unOrBin) l) (hangBin repaired o.r .std r) := by
+      bin op (hangBin repaired o.l (hctx op .unOrBin) l) (hangBin repaired o.r .unOrBin r) := by
   have h : repaired.hangLhsExp = true := rfl
-  simp only [fmtH, h, true_and, hctx]
+  have h2 : repaired.hangRhsOperand = true := rfl
+  simp only [fmtH, h, h2, true_and, hctx, if_true]
 
+/-- both hanging functions, by one structural induction. `hangBin` descends into operands
+with the context it was given, so that context must not be Standard. -/
 theorem hang_good (e : Expr) :
     (∀ (o : Oracle) (ctx : Ctx) (p : Pos), dropOK ctx p = true → faithful e = true → okAt p e = true →
       Good p e (fmtH repaired o ctx e)) ∧
-    (∀ (o : Oracle) (ctx : Ctx) (p : Pos), dropOK ctx p = true → faithful e = true → okAt p e = true →
+    (∀ (o : Oracle) (ctx : Ctx) (p : Pos), ctx ≠ .std → dropOK ctx p = true → faithful e = true → okAt p e = true →
       Good p e (hangBin repaired o ctx e)) := by
   induction e with
-  | atom n => exact ⟨fun o ctx p _ hf hok => good_atomlike p _ hf hok, fun o ctx p _ hf hok => good_atomlike p _ hf hok⟩
-  | call n => exact ⟨fun o ctx p _ hf hok => good_atomlike p _ hf hok, fun o ctx p _ hf hok => good_atomlike p _ hf hok⟩
-  | varargs => exact ⟨fun o ctx p _ hf hok => good_atomlike p _ hf hok, fun o ctx p _ hf hok => good_atomlike p _ hf hok⟩
-  | ifx n => exact ⟨fun o ctx p _ hf hok => good_atomlike p _ hf hok, fun o ctx p _ hf hok => good_atomlike p _ hf hok⟩
+  | atom n => exact ⟨fun o ctx p _ hf hok => good_atomlike p _ hf hok, fun o ctx p _ _ hf hok => good_atomlike p _ hf hok⟩
+  | call n => exact ⟨fun o ctx p _ hf hok => good_atomlike p _ hf hok, fun o ctx p _ _ hf hok => good_atomlike p _ hf hok⟩
+  | varargs => exact ⟨fun o ctx p _ hf hok => good_atomlike p _ hf hok, fun o ctx p _ _ hf hok => good_atomlike p _ hf hok⟩
+  | ifx n => exact ⟨fun o ctx p _ hf hok => good_atomlike p _ hf hok, fun o ctx p _ _ hf hok => good_atomlike p _ hf hok⟩
   | paren e ih =>
     have main : ∀ (o : Oracle) (ctx : Ctx) (p : Pos), dropOK ctx p = true → faithful (paren e) = true →
         okAt p (paren e) = true → Good p (paren e) (fmtH repaired o ctx (paren e)) := by
@@ -343,11 +428,11 @@ theorem hang_good (e : Expr) :
       · rename_i hdrop
         obtain ⟨hce, hk⟩ := hdrop
         have hk' : keepParens ctx = false := by simpa using hk
-        exact good_paren_drop p ctx e _ hce (ih.1 o.l ctx p hd hfe (checkExcess_okAt e ctx p hce hk' hd))
+        exact good_paren_drop p ctx e _ hce hk' hd (ih.1 o.l ctx p hd hfe (checkExcess_okAt e ctx p hce hk' hd))
       · split
         · exact good_paren_keep p e _ (fmtS_good e .std .top rfl hfe rfl)
         · exact good_paren_keep p e _ (ih.1 o.l .std .top rfl hfe rfl)
-    exact ⟨main, fun o ctx p hd hf hok => by rw [hangBin_paren_eq]; exact main o ctx p hd hf hok⟩
+    exact ⟨main, fun o ctx p _ hd hf hok => by rw [hangBin_paren_eq]; exact main o ctx p hd hf hok⟩
   | un op e ih =>
     have main : ∀ (o : Oracle) (ctx : Ctx) (p : Pos), dropOK ctx p = true → faithful (un op e) = true →
         okAt p (un op e) = true → Good p (un op e) (fmtH repaired o ctx (un op e)) := by
@@ -356,14 +441,14 @@ theorem hang_good (e : Expr) :
       simp only [faithful, Bool.and_eq_true, Bool.not_eq_eq_eq_not, Bool.not_true] at hf'
       obtain ⟨⟨ho, _⟩, hfe⟩ := hf'
       rw [fmtH_un_eq]
-      refine good_un p op e _ _ hok ?_ ?_ (ih.1 o.l .unOrBin (.unOperand op) rfl hfe ho)
+      refine good_un p op e _ _ hok ?_ ?_ (ih.1 o.l .unOrBin (.unOperand op) (dropOK_unOrBin_un op) hfe ho)
       · intro hc
         simp only [minusClash, Bool.and_eq_true, beq_iff_eq] at hc
         simp [hc.1, isUnMinus_eq, hc.2]
       · intro hw
         simp only [Bool.and_eq_true] at hw
         exact truncate_sem_of_isUnMinus _ hw.2
-    exact ⟨main, fun o ctx p hd hf hok => by rw [hangBin_un_eq]; exact main o ctx p hd hf hok⟩
+    exact ⟨main, fun o ctx p _ hd hf hok => by rw [hangBin_un_eq]; exact main o ctx p hd hf hok⟩
   | assert e ih =>
     have main : ∀ (o : Oracle) (ctx : Ctx) (p : Pos), dropOK ctx p = true → faithful (assert e) = true →
         okAt p (assert e) = true → Good p (assert e) (fmtH repaired o ctx (assert e)) := by
@@ -372,7 +457,7 @@ theorem hang_good (e : Expr) :
       simp only [faithful, Bool.and_eq_true] at hf'
       simp only [fmtH]
       exact good_assert p e _ hok (ih.1 o.l .tassert .assertOperand rfl hf'.2 hf'.1)
-    exact ⟨main, fun o ctx p hd hf hok => by rw [hangBin_assert_eq]; exact main o ctx p hd hf hok⟩
+    exact ⟨main, fun o ctx p _ hd hf hok => by rw [hangBin_assert_eq]; exact main o ctx p hd hf hok⟩
   | bin op l r ihl ihr =>
     constructor
     · intro o ctx p hd hf hok
@@ -380,17 +465,18 @@ theorem hang_good (e : Expr) :
       simp only [faithful, Bool.and_eq_true] at hf'
       obtain ⟨⟨⟨hol, hor⟩, hfl⟩, hfr⟩ := hf'
       rw [fmtH_bin_eq]
-      exact good_bin p op l r _ _ hok (ihl.2 o.l _ (.binL op) (dropOK_hctx op _) hfl hol)
-        (ihr.2 o.r .std (.binR op) rfl hfr hor)
-    · intro o ctx p hd hf hok
+      exact good_bin p op l r _ _ hok
+        (ihl.2 o.l _ (.binL op) (hctx_ne_std op _ (by decide)) (dropOK_hctx op _ (by decide)) hfl hol)
+        (ihr.2 o.r .unOrBin (.binR op) (by decide) (dropOK_unOrBin_binR op) hfr hor)
+    · intro o ctx p hs hd hf hok
       have hf' := hf
       simp only [faithful, Bool.and_eq_true] at hf'
       obtain ⟨⟨⟨hol, hor⟩, hfl⟩, hfr⟩ := hf'
       have h : repaired.hangLhsExp = true := rfl
-      have ghl := ihl.2 o.l (hctx op ctx) (.binL op) (dropOK_hctx op _) hfl hol
-      have ghr := ihr.2 o.r ctx (.binR op) rfl hfr hor
+      have ghl := ihl.2 o.l (hctx op ctx) (.binL op) (hctx_ne_std op ctx hs) (dropOK_hctx op _ hs) hfl hol
+      have ghr := ihr.2 o.r ctx (.binR op) hs (by simp [dropOK, hs]) hfr hor
       have gsl := fmtS_good l (lhsCtx op) (.binL op) (dropOK_lhsCtx op) hfl hol
-      have gsr := fmtS_good r .unOrBin (.binR op) rfl hfr hor
+      have gsr := fmtS_good r .unOrBin (.binR op) (dropOK_unOrBin_binR op) hfr hor
       simp only [hangBin, h, true_and]
       change Good p (bin op l r) (if o.hang = true then
           if op.rassoc = true then bin op (if o.cl = true then hangBin repaired o.l (hctx op ctx) l else fmtS repaired (lhsCtx op) l) (hangBin repaired o.r ctx r)
